@@ -466,6 +466,7 @@ static void c07_state(Position& e, const ref::Pos& p, const std::vector<ref::Mv>
 // history predicates over every prefix of every game
 static uint64_t g_games_nodes = 0, g_games_leaves = 0;
 static std::string g_root_fen;
+static uint64_t g_sq_filter = 0;  // if non-zero: only moves whose from and to squares are both in the set
 static void c07_games(Position& e, const ref::Pos& p, std::vector<std::string>& hist, std::vector<std::string>& line, int depth)
 {
     ++g_games_nodes;
@@ -514,6 +515,7 @@ static void c07_games(Position& e, const ref::Pos& p, std::vector<std::string>& 
     ref::Pos t;
     for (auto& m : legal)
     {
+        if (g_sq_filter && !(((g_sq_filter >> m.from) & 1) && ((g_sq_filter >> m.to) & 1))) continue;
         ref::make(p, m, t);
         Move em = e.parse_uci(ref::uci(m));
         MoveInfo mi = e.do_move(em);
@@ -1104,7 +1106,7 @@ static int validate_seeds(const std::string& path)
 
 // prints a long legal game from the start position (no capture, no threefold repetition, half-move
 // clock kept below 100 by quiet pawn steps): used by the C10 session enumerator as "spine"
-static int print_spine(int plies)
+static std::string spine_moves(int plies)
 {
     ref::Pos p;
     ref::parse_fen("rnbqkbnr/pppppppp/8/8/8/8/PPPPPPPP/RNBQKBNR w KQkq - 0 1", p);
@@ -1145,14 +1147,92 @@ static int print_spine(int plies)
         if (!pick)
         {
             fprintf(stderr, "spine stuck at ply %d (hmc %d)\n", ply, p.hmc);
-            return 2;
+            exit(2);
         }
         line += (line.empty() ? "" : " ") + ref::uci(*pick);
         p = best;
         seen[ref::identity(p)]++;
     }
-    printf("%s\n", line.c_str());
+    return line;
+}
+
+static int print_spine(int plies)
+{
+    printf("%s\n", spine_moves(plies).c_str());
     return 0;
+}
+
+static std::string spine_moves(int plies);
+
+// a long legal game (spine) of `plies` plies, then every game of the (optionally square-filtered)
+// tree below it to `depth`: repetition / 50-move answers with a history longer than MAX_PLIES
+static void run_longgames(int plies, int depth, const std::string& squares)
+{
+    mc::Subspace sub;
+    sub.name = "longgames spine=" + std::to_string(plies) + " depth=" + std::to_string(depth) + " squares=" + squares;
+    sub.bound = "spine of " + std::to_string(plies) + " plies from the start position, then every move sequence up to " + std::to_string(depth) +
+                " plies" + (squares.empty() ? "" : " restricted to moves between the squares " + squares) + "; history predicates on every prefix";
+    g_sq_filter = 0;
+    for (size_t i = 0; i + 1 < squares.size(); i += 2) g_sq_filter |= 1ULL << ((squares[i] - 'a') + 8 * (squares[i + 1] - '1'));
+    ref::Pos p;
+    ref::parse_fen("rnbqkbnr/pppppppp/8/8/8/8/PPPPPPPP/RNBQKBNR w KQkq - 0 1", p);
+    g_root_fen = ref::fen(p);
+    Position e(ref::fen(p));
+    std::vector<std::string> hist, line;
+    std::istringstream is(spine_moves(plies));
+    std::string tok;
+    while (is >> tok)
+    {
+        std::vector<ref::Mv> legal;
+        ref::gen_legal(p, legal);
+        const ref::Mv* mv = nullptr;
+        for (auto& m : legal)
+            if (ref::uci(m) == tok) mv = &m;
+        if (!mv) exit(2);
+        hist.push_back(ref::identity(p));
+        ref::Pos t;
+        ref::make(p, *mv, t);
+        e.do_move(e.parse_uci(tok));
+        line.push_back(tok);
+        p = t;
+    }
+    if (squares == "auto")
+    {
+        // one knight per side with (up to) two empty target squares: shuffles deep enough for repetition
+        g_sq_filter = 0;
+        for (int side = 0; side < 2; ++side)
+        {
+            char kn = ref::mk(side, 'n');
+            for (int sq = 0; sq < 64; ++sq)
+            {
+                if (p.b[sq] != kn) continue;
+                int found = 0;
+                uint64_t set = 1ULL << sq;
+                for (int i = 0; i < 8 && found < 2; ++i)
+                {
+                    int f = ref::fileof(sq) + ref::KN_DF[i], r = ref::rankof(sq) + ref::KN_DR[i];
+                    if (f < 0 || f > 7 || r < 0 || r > 7 || p.b[r * 8 + f] != '.') continue;
+                    set |= 1ULL << (r * 8 + f);
+                    ++found;
+                }
+                if (found == 2)
+                {
+                    g_sq_filter |= set;
+                    break;
+                }
+            }
+        }
+    }
+    g_games_nodes = 0;
+    uint64_t e0 = R.counters["edges"];
+    c07_games(e, p, hist, line, depth);
+    sub.states = g_games_nodes;
+    sub.transitions = R.counters["edges"] - e0 + uint64_t(plies);
+    sub.exhaustive = !R.out_of_time();
+    R.count("long_history_prefixes", g_games_nodes);
+    R.sample(mc::JObj().s("space", sub.name).n("prefixes", (long long)g_games_nodes).str());
+    g_sq_filter = 0;
+    R.subspaces.push_back(sub);
 }
 
 static void run_lattice(const std::string& fen)
@@ -1265,6 +1345,8 @@ int main(int argc, char** argv)
             run_lattice(parts[1]);
         else if (parts[0] == "line")
             run_line(parts[1], parts.size() > 2 ? parts[2] : "");
+        else if (parts[0] == "longgames")
+            run_longgames(atoi(parts[1].c_str()), atoi(parts[2].c_str()), parts.size() > 3 ? parts[3] : "");
         else if (parts[0] == "spine")
             return print_spine(atoi(parts[1].c_str()));
         else if (parts[0] == "validate")
